@@ -248,3 +248,38 @@ Qed.
 Theorem uniq_from_any_state : forall c s h,
   NoDup (map l_cid (tbl s)) -> Uniq (tbl s) -> Uniq (tbl (fst (run c s h))).
 Proof. intros c s h W U. apply (uw_run c h s (conj W U)). Qed.
+
+(* ---------------------------------------------------------------- *)
+(* the configuration value domain *)
+
+Lemma sub_changed_refl f : sub_changed f f = false.
+Proof. unfold sub_changed. rewrite !N.eqb_refl. reflexivity. Qed.
+
+(* RESTART WITH THE SAME CONFIGURATION KEEPS THE TABLE: for every raw configuration (Config + NIC data, every
+   form of DNSServer — zero value, plain, IPv4-mapped, IPv6 —, any Mode) that (Config).New accepts, a handler
+   constructed again from the same raw configuration on the file the first one left compares equal to the
+   file (configChanged sees the NORMALISED values on both sides) and restores the saved bindings. *)
+Theorem restart_same_config_keeps_table : forall r c pre saved,
+  new_cfg r = Some c ->
+  c_sub c = wanted c /\
+  sub_changed (wanted c) (c_sub c) = false /\
+  loaded_cfg (c_sub c) c = c /\
+  tbl (restart_state (c_sub c) c pre saved) = restore c (sess_pre c pre) saved.
+Proof.
+  intros r c pre saved H. unfold new_cfg in H. destruct (_ && _) in H; [|discriminate]. inversion H; subst c. clear H.
+  set (c := fresh_cfg _ _ _ _ _ _ _ _ _ _).
+  assert (E : c_sub c = wanted c) by reflexivity.
+  assert (S : sub_changed (wanted c) (c_sub c) = false) by (rewrite E; apply sub_changed_refl).
+  assert (L : loaded_cfg (c_sub c) c = c) by (unfold loaded_cfg; rewrite S; reflexivity).
+  repeat split; auto. unfold restart_state. rewrite S, L. reflexivity.
+Qed.
+
+(* the DNS server of non-captured clients, from the RAW configuration as the property words it: the configured
+   server, the router when none (no IPv4 server) is configured *)
+Theorem dns_defaults_to_router : forall r c, new_cfg r = Some c ->
+  c_dns c = spec_dns r /\ want_dns c false = spec_dns r /\ c_routerip c = r_routerip r /\
+  c_mode c = norm_mode (r_mode r) /\ sub_ok c.
+Proof.
+  intros r c H. unfold new_cfg in H. destruct (_ && _) in H; [|discriminate]. inversion H; subst c.
+  repeat split; try (unfold spec_dns, norm_dns; destruct (r_dns r); reflexivity).
+Qed.
